@@ -1,0 +1,6 @@
+//go:build !verif
+
+package util
+
+// VerifYield is a no-op unless the library is built with the "verif" build tag.
+func VerifYield(point string) {}
